@@ -2,10 +2,15 @@ import Driver.Proto
 import TonicModel.Model.Router
 import TonicModel.Spec.Router
 /-
-C10 driver.  Case line:
+C10 driver.  Case lines:
   call <api> <wrap> <http-method> <n> { <pool-idx> <full-name> <k> <method>^k }^n <path-hex> <query-hex|->
-Observed / model line:
-  route <name|-> handler <svc|-> <method|-> status <grpc-status|none>      or   panic
+  plan <wrap> <http-method> <n> { <pool-idx> <full-name> <k> <method>^k }^n <start> <k> <op>^k <path-hex> <query-hex|->
+      start: new:<p> | default | builder | axum:<own|none>:<0|1> | baxum:<own|none>:<0|1> | srv:<p> | srvopt:<p> | srvnone
+      op:    add:<p> | opt:<p> | none | prepare | axum | uroute | tobuilder | tobuilder-axum | routes | serve
+      (<p> = position in the declared list; axum:<fallback>:<1 = with the user routes /u/hello, /a.S/Own>)
+Observed / model line (only what the property talks about: which handler ran, grpc-status, HTTP
+status, content-type — not which internal route answered):
+  handler <svc|-> <method|-> status <grpc-status|none> http <code> ct <content-type|none>      or   panic
 `api`, `wrap`, the HTTP method, the pool index and the query are ignored by the model: the
 property says they do not matter.
 -/
@@ -34,23 +39,83 @@ def parseSvcs : Nat → List String → Option (List Svc × List String)
         | none => none
   | _, _ => none
 
-def render : Outcome → String
-  | .handler s m => s!"route {showName s} handler {showName s} {showName m} status 0"
-  | .svcDefault s => s!"route {showName s} handler - - status 12"
-  | .fallback => "route - handler - - status 12"
-  | .panic => "panic"
+/-- The harness's user handlers: a user route answers `200 text/plain`, the user's fallback
+`418 text/plain`; axum's own fallback is a bare 404. -/
+def render : Answer → String
+  | .tonic (.handler s m) => s!"handler {showName s} {showName m} status 0 http 200 ct application/grpc"
+  | .tonic (.svcDefault _) => "handler - - status 12 http 200 ct application/grpc"
+  | .tonic .fallback => "handler - - status 12 http 200 ct application/grpc"
+  | .tonic .panic => "panic"
+  | .userRoute _ => "handler - - status none http 200 ct text/plain"
+  | .axumNotFound => "handler - - status none http 404 ct none"
+  | .userFallback => "handler - - status none http 418 ct text/plain"
 
 def parseObs : List String → Option Spec.Router.Obs
-  | ["route", _, "handler", s, m, "status", st] =>
+  | ["handler", s, m, "status", st, "http", code, "ct", ct] =>
     let h := if s == "-" then none else some (nameBytes s, nameBytes m)
-    match optNat? st with
-    | some st => some ⟨h, st⟩
-    | none => none
+    match optNat? st, nat? code with
+    | some st, some code => some ⟨h, st, code, ct == "application/grpc"⟩
+    | _, _ => none
   | _ => none
 
 /-- The harness could not even form the request (`http::Uri` rejected the target or split it
 differently): no exchange took place, nothing to judge. -/
 def vacuous (obs : List String) : Bool := obs == ["not-a-uri"] || obs == ["uri-path-differs"]
+
+/-- the routes of the harness's user-made `axum::Router`, and the one added later through
+`axum_router_mut` -/
+def userRoutes : List Bytes := [nameBytes "/u/hello", nameBytes "/a.S/Own"]
+def lateRoute : Bytes := nameBytes "/u/late"
+
+def userRouter? (fb u : String) : Option UserRouter :=
+  match fb, u with
+  | "own", "0" => some ⟨[], true⟩ | "own", "1" => some ⟨userRoutes, true⟩
+  | "none", "0" => some ⟨[], false⟩ | "none", "1" => some ⟨userRoutes, false⟩
+  | _, _ => none
+
+def start? (decl : List Svc) (t : String) : Option Start :=
+  match t.splitOn ":" with
+  | ["new", p] => (nat? p).bind (decl[·]?) |>.map .routesNew
+  | ["default"] => some .routesDefault
+  | ["builder"] => some .routesBuilder
+  | ["axum", fb, u] => (userRouter? fb u).map .fromAxum
+  | ["baxum", fb, u] => (userRouter? fb u).map .builderFromAxum
+  | ["srv", p] => (nat? p).bind (decl[·]?) |>.map .serverAddService
+  | ["srvopt", p] => (nat? p).bind (decl[·]?) |>.map (fun s => .serverAddOptional (some s))
+  | ["srvnone"] => some (.serverAddOptional none)
+  | _ => none
+
+def op? (decl : List Svc) (t : String) : Option Op :=
+  match t.splitOn ":" with
+  | ["add", p] => (nat? p).bind (decl[·]?) |>.map .addService
+  | ["opt", p] => (nat? p).bind (decl[·]?) |>.map (fun s => .addOptional (some s))
+  | ["none"] => some (.addOptional none)
+  | ["prepare"] => some .prepare
+  | ["axum"] => some .axumRoundTrip
+  | ["uroute"] => some (.userRoute lateRoute)
+  | ["tobuilder"] => some .intoBuilder
+  | ["tobuilder-axum"] => some .intoBuilderViaAxum
+  | ["routes"] => some .builderRoutes
+  | ["serve"] => some .serverAddRoutes
+  | _ => none
+
+/-- The spec verdict.  `reg`: the services that were registered, in order.  `ownFallback`: the
+router was built on a user-made `axum::Router` that has a fallback of its own; `userPaths`: the
+routes the user put on it himself.  Only these two user-made things are excluded, and only from
+the answer clause: no tonic handler may run on them either. -/
+def judge (reg : List Svc) (path : Bytes) (ownFallback : Bool) (userPaths : List Bytes)
+    (obs : List String) : String :=
+  let decl : Spec.Router.Decl := reg.map (fun s => (s.name, s.methods))
+  if hasDup (decl.map Prod.fst) then "ok"   -- not a *set* of services: outside the property's quantifier
+  else match parseObs obs with
+    | none => "fail:no-response-observed"
+    | some o =>
+      if userPaths.contains path then verdict [("no-handler-on-a-user-route", o.handler.isNone)]
+      else
+        let excluded := ownFallback && (Spec.Router.targets decl path).isEmpty &&
+          !Spec.Router.underService decl path
+        verdict [("dispatch-iff-exact-path", Spec.Router.handlerOk decl path o),
+                 ("every-other-path-unimplemented", excluded || Spec.Router.answerOk decl path 0 o)]
 
 def handle (case obs : List String) : String × String :=
   if vacuous obs then (String.intercalate " " obs, "ok") else
@@ -63,16 +128,31 @@ def handle (case obs : List String) : String × String :=
       | some (reg, [p, _q]) =>
         match unhex p with
         | none => bad
-        | some path =>
-          let model := render (dispatch reg path)
-          let decl : Spec.Router.Decl := reg.map (fun s => (s.name, s.methods))
-          let isSet := !(hasDup (decl.map Prod.fst))
-          let v :=
-            if !isSet then "ok"   -- not a *set* of services: outside the property's quantifier
-            else match parseObs obs with
-              | some o => verdict [("dispatch-iff-exact-path-else-unimplemented", Spec.Router.allowed decl path o)]
-              | none => "fail:no-response-observed"
-          (model, v)
+        | some path => (render (.tonic (dispatch reg path)), judge reg path false [] obs)
+      | _ => bad
+  | "plan" :: _wrap :: _meth :: n :: rest =>
+    match nat? n with
+    | none => bad
+    | some n =>
+      match parseSvcs n rest with
+      | some (decl, st :: k :: rest) =>
+        match start? decl st, nat? k with
+        | some start, some k =>
+          if rest.length != k + 2 then bad else
+          match (rest.take k).mapM (op? decl), unhex (rest.getD k "") with
+          | some ops, some path =>
+            let model := render ((build start ops).table.serve path)
+            let (own, upaths) := match start with
+              | .fromAxum u => (u.ownFallback, u.routes)
+              | .builderFromAxum u => (u.ownFallback, u.routes)
+              | _ => (false, [])
+            let late := (ops.filter (· == .userRoute lateRoute)).length
+            let upaths := if late > 0 then lateRoute :: upaths else upaths
+            -- the same user route mounted twice is the user's error (axum panics): nothing to judge
+            if late ≥ 2 && obs == ["panic"] then (model, "ok") else
+            (model, judge (mounted start ops) path own upaths obs)
+          | _, _ => bad
+        | _, _ => bad
       | _ => bad
   | _ => bad
 
